@@ -1,6 +1,7 @@
 import IrefVerif.Model.Reference
 import IrefVerif.Findings
 import IrefVerif.Lemmas.RelativeTotal
+import IrefVerif.Lemmas.RelativeRoundTrip
 import IrefVerif.Lemmas.IriBytes
 import IrefVerif.Props.Valid
 
@@ -19,7 +20,13 @@ returns a valid reference of the same family (`relative_to_total_valid_partial`:
 comparison and the common-prefix loop are total on well-escaped components, every `push`/`clear`
 through `path_mut()` keeps the buffer valid by `C04.path_session`, query and fragment are set by
 the setters of C04), the inputs being unchanged because the model is a pure function; and (ii)
-the scheme-mismatch branch returns `a` itself.  The check judges the implementation with the
+the scheme-mismatch branch returns `a` itself; and (iii) **the round trip itself on the class the
+function was written for** (`roundtrip_on_class_partial`): same scheme, equal authorities, absolute
+paths, no query or fragment on `a`, and a non-empty remainder of `a`'s normalised segments, without
+empty segments, after the common prefix with the base's directory.  There `a.relative_to(b)` is
+`../` for every remaining segment of the base's directory followed by that remainder
+(`relative_to_on_class`), and resolving it against `b` gives a URI/IRI equal to `a`
+(`Lemmas/RelativeRoundTrip.lean`, through `C06.resolve_relative_authority`).  The check judges the implementation with the
 round-trip oracle on every generated pair, reports F12 as KNOWN-FINDING, and raises a
 violation for any failing pair outside `f12` or any difference between model and
 implementation.
@@ -68,6 +75,67 @@ theorem iri_relative_to_accepted_partial (a b : Text) (ha8 : ∀ c ∈ a, c < 25
     ∃ r, Ref.relative_to a b = some r ∧ accepts .iriRef r = true := by
   obtain ⟨r, e, hv⟩ := iri_relative_to_total_partial a b ha8 hb8 ha hb
   exact ⟨r, e, Valid.iriRef_of_octets r hv⟩
+
+/-- **the round trip holds on the class** — partial (outside it: F12) -/
+theorem roundtrip_on_class_partial (G : Grammar) (ok : Lemmas.Grammar.Ok G) (okp : Lemmas.Grammar.OkPath G)
+    (oka : Lemmas.Grammar.OkAuth G) (we : Lemmas.Grammar.OkWE G) (a b aa ab : Text)
+    (ha : RE.Matches G.full a) (hb : RE.Matches G.full b)
+    (hsch : (split a).scheme = (split b).scheme)
+    (haa : (split a).authority = some aa) (hab : (split b).authority = some ab) (hauth : authKey aa = authKey ab)
+    (hpa : isAbs (split a).path = true) (hpb : isAbs (split b).path = true)
+    (hq : (split a).query = none) (hf : (split a).fragment = none)
+    (hrem : (Ref.dropCommon (nsegs (split a).path) (nsegs (Path.parent_or_empty (split b).path))).1 ≠ [] ∧
+      [] ∉ (Ref.dropCommon (nsegs (split a).path) (nsegs (Path.parent_or_empty (split b).path))).1) :
+    ∃ r t, Ref.relative_to a b = some r ∧ Ref.resolve r b = some t ∧ key t = key a :=
+  Lemmas.relative_roundtrip G ok okp oka we a b aa ab ha hb hsch haa hab hauth hpa hpb hq hf hrem
+
+/-- what `relative_to` returns there -/
+theorem relative_to_on_class (G : Grammar) (ok : Lemmas.Grammar.Ok G) (okp : Lemmas.Grammar.OkPath G)
+    (oka : Lemmas.Grammar.OkAuth G) (we : Lemmas.Grammar.OkWE G) (a b aa ab : Text)
+    (ha : RE.Matches G.reference a) (hb : RE.Matches G.reference b)
+    (hsch : (split a).scheme = (split b).scheme)
+    (haa : (split a).authority = some aa) (hab : (split b).authority = some ab) (hauth : authKey aa = authKey ab)
+    (hpa : isAbs (split a).path = true) (hpb : isAbs (split b).path = true)
+    (hq : (split a).query = none) (hf : (split a).fragment = none) :
+    Ref.relative_to a b = some (Lemmas.renderRel
+      (((Ref.dropCommon (nsegs (split a).path) (nsegs (Path.parent_or_empty (split b).path))).2.map fun _ => segDotDot) ++
+        (Ref.dropCommon (nsegs (split a).path) (nsegs (Path.parent_or_empty (split b).path))).1)) :=
+  Lemmas.relative_to_explicit G ok okp oka we a b aa ab ha hb hsch haa hab hauth hpa hpb hq hf
+
+/-- end to end, URI family: accepted `Uri`s in the class -/
+theorem uri_roundtrip_on_class_partial (a b aa ab : Text) (ha8 : ∀ c ∈ a, c < 256) (hb8 : ∀ c ∈ b, c < 256)
+    (ha : accepts .uri a = true) (hb : accepts .uri b = true)
+    (hsch : (split a).scheme = (split b).scheme)
+    (haa : (split a).authority = some aa) (hab : (split b).authority = some ab) (hauth : authKey aa = authKey ab)
+    (hpa : isAbs (split a).path = true) (hpb : isAbs (split b).path = true)
+    (hq : (split a).query = none) (hf : (split a).fragment = none)
+    (hrem : (Ref.dropCommon (nsegs (split a).path) (nsegs (Path.parent_or_empty (split b).path))).1 ≠ [] ∧
+      [] ∉ (Ref.dropCommon (nsegs (split a).path) (nsegs (Path.parent_or_empty (split b).path))).1) :
+    ∃ r t, Ref.relative_to a b = some r ∧ Ref.resolve r b = some t ∧ key t = key a :=
+  roundtrip_on_class_partial uriG Lemmas.uriG_ok Lemmas.uriG_okPath Lemmas.uriG_okAuth Lemmas.uriG_okWE a b aa ab
+    (Valid.uri_octets a ha8 ha) (Valid.uri_octets b hb8 hb) hsch haa hab hauth hpa hpb hq hf hrem
+
+/-- … IRI family (octets) -/
+theorem iri_roundtrip_on_class_partial (a b aa ab : Text) (ha8 : ∀ c ∈ a, c < 256) (hb8 : ∀ c ∈ b, c < 256)
+    (ha : accepts .iri a = true) (hb : accepts .iri b = true)
+    (hsch : (split a).scheme = (split b).scheme)
+    (haa : (split a).authority = some aa) (hab : (split b).authority = some ab) (hauth : authKey aa = authKey ab)
+    (hpa : isAbs (split a).path = true) (hpb : isAbs (split b).path = true)
+    (hq : (split a).query = none) (hf : (split a).fragment = none)
+    (hrem : (Ref.dropCommon (nsegs (split a).path) (nsegs (Path.parent_or_empty (split b).path))).1 ≠ [] ∧
+      [] ∉ (Ref.dropCommon (nsegs (split a).path) (nsegs (Path.parent_or_empty (split b).path))).1) :
+    ∃ r t, Ref.relative_to a b = some r ∧ Ref.resolve r b = some t ∧ key t = key a :=
+  roundtrip_on_class_partial Lemmas.iriGB Lemmas.iriGB_ok Lemmas.iriGB_okPath Lemmas.iriGB_okAuth Lemmas.iriGB_okWE
+    a b aa ab (Valid.iri_octets a ha8 ha) (Valid.iri_octets b hb8 hb) hsch haa hab hauth hpa hpb hq hf hrem
+
+/-- the hypotheses are satisfiable: `s://h/a/b/c` relative to `s://h/a/d/e` -/
+example :
+    let a : Text := [0x73,0x3A,0x2F,0x2F,0x68,0x2F,0x61,0x2F,0x62,0x2F,0x63]
+    let b : Text := [0x73,0x3A,0x2F,0x2F,0x68,0x2F,0x61,0x2F,0x64,0x2F,0x65]
+    (split a).scheme = (split b).scheme ∧ (split a).authority = some [0x68] ∧ (split b).authority = some [0x68] ∧
+    isAbs (split a).path = true ∧ isAbs (split b).path = true ∧ (split a).query = none ∧ (split a).fragment = none ∧
+    (Ref.dropCommon (nsegs (split a).path) (nsegs (Path.parent_or_empty (split b).path))).1 = [[0x62], [0x63]] ∧
+    Ref.relative_to a b = some [0x2E,0x2E,0x2F,0x62,0x2F,0x63] := by decide
 
 /-- negative witnesses of F12 on the model (and, by correspondence, on the code) -/
 example : Findings.f12 [0x73, 0x3A] [0x73, 0x3A, 0x2F, 0x2F, 0x68, 0x2F, 0x61] = true := by decide
